@@ -79,10 +79,7 @@ func c09BuildShape(sh c09Shape) (*genetics.Population, *neat.Options) {
 	opts.BabiesStolen = sh.Stolen
 	opts.DropOffAge = sh.Drop
 	opts.SurvivalThresh = c09Surv[sh.Surv]
-	opts.AgeSignificance = 1
-	if sh.AgeSig == 1 {
-		opts.AgeSignificance = 1.5
-	}
+	opts.AgeSignificance = []float64{1, 1.5, 0}[sh.AgeSig%3]
 	sp := hbSpec{Sizes: sh.Sizes}
 	for _, a := range sh.AgeIdx {
 		sp.Ages = append(sp.Ages, c09AgeMenu[a][0])
@@ -196,7 +193,7 @@ func c09Shapes(c *Ctx) {
 					for _, drop := range []int{1, 15} {
 						for surv := range c09Surv {
 							for stag := 0; stag < 2; stag++ {
-								sh := c09Shape{Sizes: sizes, AgeIdx: append([]int(nil), ageIdx...), Fit: fit, Stolen: st, Drop: drop, Surv: surv, Stag: stag, AgeSig: (code + fit) % 2}
+								sh := c09Shape{Sizes: sizes, AgeIdx: append([]int(nil), ageIdx...), Fit: fit, Stolen: st, Drop: drop, Surv: surv, Stag: stag, AgeSig: (code + fit + st) % 3}
 								shapes++
 								// complete tree of the draws made during preparation
 								var rec func(prefix []int)
